@@ -21,6 +21,8 @@ import (
 )
 
 type SCase struct {
+	// a pattern judged against Model/Pattern.v (harness/c01pat.go); the other fields are then unused
+	Pat *PatCase `json:"pattern_units,omitempty"`
 	Schema *GSchema `json:"schema"`
 	Value  any      `json:"value"`
 	Mode   int      `json:"mode,omitempty"` // 0 plain, 1 asreq, 2 asreq without read-only checks, 3 asrep, 4 asrep without write-only checks
@@ -749,12 +751,34 @@ func schemaRunner(prop string, gopts SchemaGenOpts, rule string, post func(c *SC
 			for i := 0; i < n; i++ {
 				cases = append(cases, sRandomCase(r, gopts))
 			}
+			if prop == "C01" {
+				// the rewriting of pattern escapes, against its own model
+				for _, pc := range patDirected() {
+					pc := pc
+					cases = append(cases, SCase{Pat: &pc})
+				}
+				pr := NewRng(seed ^ 0x9a77e12)
+				for i := 0; i < n/3; i++ {
+					pc := patRandom(pr)
+					cases = append(cases, SCase{Pat: &pc})
+				}
+			}
 		}
 		meta := &Meta{Property: prop, Seed: seed, Histogram: map[string]int{}, Rule: rule, Shard: 400}
 		seen := map[string]bool{}
-		var terms []string
+		var terms, pterms []string
+		var sidx, pidx []int
 		for i := range cases {
 			c := &cases[i]
+			if c.Pat != nil {
+				out := runPat(c.Pat)
+				pterms = append(pterms, patCoq(c.Pat, out))
+				pidx = append(pidx, i)
+				meta.Cases = append(meta.Cases, map[string]any{"input": c, "go": map[string]string{"pattern": c.Pat.text(), "rewritten": out}})
+				meta.Histogram["pattern rewriting cases"]++
+				continue
+			}
+			sidx = append(sidx, i)
 			if prop == "C19" && i%4 != 3 { // every fourth case keeps its (format-shaped) leaves
 				plantMarkers(c, i)
 			}
@@ -795,7 +819,16 @@ func schemaRunner(prop string, gopts SchemaGenOpts, rule string, post func(c *SC
 			c12Discriminator(meta)
 		}
 		meta.NCases = len(cases)
-		meta.Files = writeCases(outDir, "From KV Require Import Model.Base Model.Json Model.Schema Exec.SchemaExec.", "scase", "judge_"+prop, terms, meta.Shard)
+		var off1 []int
+		meta.Files, off1 = writeCasesAt(outDir, "cases", "From KV Require Import Model.Base Model.Json Model.Schema Exec.SchemaExec.", "scase", "judge_"+prop, terms, meta.Shard, 0)
+		meta.Offsets = off1
+		meta.IndexMap = sidx
+		if len(pterms) > 0 {
+			f2, off2 := writeCasesAt(outDir, "pat", "From KV Require Import Model.Base Model.Pattern Proofs.PatternProofs Exec.C01PatExec.", "patcase", "judge_pat", pterms, meta.Shard, len(terms))
+			meta.Files = append(meta.Files, f2...)
+			meta.Offsets = append(meta.Offsets, off2...)
+			meta.IndexMap = append(meta.IndexMap, pidx...)
+		}
 		writeMeta(outDir, meta)
 		fmt.Fprintf(os.Stderr, "%s: %d cases\n", prop, len(cases))
 	}
